@@ -78,6 +78,11 @@ def c_ast(path: str, include_dirs: List[str] = ()) -> CNode:
         raise AnalysisError("clang AST of %s is not JSON: %s" % (path, e))
 
 
+def c_errors(path: str, include_dirs: List[str] = ()) -> List[str]:
+    r = run_clang(["-std=c11", "-fsyntax-only"] + ["-I" + d for d in include_dirs] + [path], cwd=os.path.dirname(path))
+    return [l for l in r.stderr.splitlines() if " error: " in l]
+
+
 def functions(tu: CNode, only_file: Optional[str] = None) -> Dict[str, List[CNode]]:
     out: Dict[str, List[CNode]] = {}
     for x in tu.inner:
